@@ -84,7 +84,7 @@ def _registry_src(crate_prefix: str) -> Optional[str]:
 
 
 class World:
-    def __init__(self, crates=("uplc",), deps=()):
+    def __init__(self, crates=("uplc",), deps=(), decl_crates=("pallas-primitives", "pallas-codec")):
         self.modules: Dict[str, mir.Module] = {}
         self.decls = rustsrc.Decls()
         crate_dirs = {"uplc": "crates/uplc", "aiken-lang": "crates/aiken-lang", "aiken-project": "crates/aiken-project"}
@@ -98,12 +98,18 @@ class World:
             self.modules[d] = mir.load(path, src, "")
             if src:
                 self.decls.scan_dir(os.path.join(src, "src"))
+        for dc in decl_crates:
+            src = _registry_src(dc)
+            if src and dc not in deps:
+                self.decls.scan_dir(os.path.join(src, "src"))
         self.decls.add_builtin()
         self.main = self.modules[crates[0]]
 
     def executor(self, **kw) -> Executor:
         mods = list(self.modules.values())
-        return Executor(mods[0], self.decls, extra_modules=mods[1:], **kw)
+        ex = Executor(mods[0], self.decls, extra_modules=mods[1:], **kw)
+        ex.world = self
+        return ex
 
     def fn(self, self_ty: Optional[str], method: str, trait: Optional[str] = None, nargs: Optional[int] = None, module: Optional[str] = None) -> mir.Function:
         mods = [self.modules[module]] if module else list(self.modules.values())
